@@ -227,7 +227,8 @@ def _branch_and_price(
     if frac_idx is None:
         solution = _build_solution(x_vals, columns, eps)
         status = Status.OPTIMAL if all_proven else Status.FEASIBLE
-        return Result(solution, lp_obj, 0, total_cg_iters, status)
+        # The objective is the number of columns used: count them, the LP value carries float noise (6.999999999999999)
+        return Result(solution, float(sum(solution.values())), 0, total_cg_iters, status)
 
     # Initialize B&B
     best_solution: dict[tuple[int, ...], int] | None = None
@@ -281,7 +282,7 @@ def _branch_and_price(
             candidate = _build_solution(x_vals, columns, eps)
             if obj < best_obj - eps and _meets_demands(candidate, demands):
                 best_solution = candidate
-                best_obj = obj
+                best_obj = float(sum(candidate.values()))
 
                 # Check gap
                 gap = (best_obj - lp_obj) / max(abs(best_obj), 1e-10)
